@@ -1,5 +1,5 @@
 """C04 — several criteria compose lexicographically in the user-given order."""
-from ..lpcommon import RLp, MLex
+from ..lpcommon import RLp, MLex, MBackend
 from .c16 import Opts
 
 
@@ -19,4 +19,4 @@ class MLexN(MLex):
                 'the order is decided by the position numbers alone')
 
 
-RELATIONS = [RLpN(), MLexN(), Opts()]
+RELATIONS = [RLpN(), MLexN(), Opts(), MBackend()]
